@@ -45,6 +45,8 @@ def checks_for(path, fn):
     if path == "middleware/prometheus/prometheus.go": return ["C19"]
     return []
 
+OPS2 = False
+
 SWAPS = [(" == ", " != "), (" != ", " == "), (" < ", " <= "), (" <= ", " < "), (" > ", " >= "), (" >= ", " > "),
          (" && ", " || "), (" || ", " && ")]
 
@@ -96,6 +98,24 @@ def enumerate_mutants():
             if st in ("continue", "break"): muts.append(dict(file=path, line=ln + 1, fn=fn, op="drop-" + st, new="", checks=cks))
             if re.match(r"^(delete\(.*\)|[\w\.\[\]]+\.(Add|Delete|Del|Set|Store|Inc|Dec|Sub)\(.*\)|[\w\.\[\]]+(\+\+|--)|[\w\.\[\]]+ = (true|false|nil))$", st):
                 muts.append(dict(file=path, line=ln + 1, fn=fn, op="drop-stmt", new="", checks=cks))
+            if OPS2:
+                # second operator set: statements whose absence still compiles
+                if re.match(r"^defer .*$", st) and "Unlock" not in st:
+                    muts.append(dict(file=path, line=ln + 1, fn=fn, op="drop-defer", new="", checks=cks))
+                if re.match(r"^defer [\w\.]+\.(R?)Unlock\(\)$", st):
+                    muts.append(dict(file=path, line=ln + 1, fn=fn, op="undefer-unlock", new=line.replace("defer ", "", 1), checks=cks))
+                if re.match(r"^[\w\.\[\]]+\([^=]*\)$", st) and not st.startswith(("return", "go ", "defer ", "panic", "delete(")) and not re.match(r"^[\w\.\[\]]+\.(Add|Delete|Del|Set|Store|Inc|Dec|Sub)\(", st):
+                    muts.append(dict(file=path, line=ln + 1, fn=fn, op="drop-call", new="", checks=cks))
+                mm2 = re.search(r"make\(chan [^,\)]+, (\w+(\.\w+)*)\)", st)
+                if mm2:
+                    muts.append(dict(file=path, line=ln + 1, fn=fn, op="unbuffer-chan", new=line.replace(", " + mm2.group(1) + ")", ")", 1), checks=cks))
+                if re.search(r"make\(chan [^,\)]+\)", st):
+                    muts.append(dict(file=path, line=ln + 1, fn=fn, op="buffer-chan", new=re.sub(r"(make\(chan [^,\)]+)\)", r"\1, 1)", line, count=1), checks=cks))
+                if ".mu.Lock()" in st:
+                    muts.append(dict(file=path, line=ln + 1, fn=fn, op="lock-to-rlock", new=line.replace(".mu.Lock()", ".mu.RLock()"), checks=cks))
+                if "<-ctx.Done()" in st and st.startswith("case"):
+                    muts.append(dict(file=path, line=ln + 1, fn=fn, op="ctxdone-never", new=line.replace("<-ctx.Done()", "<-(chan struct{})(nil)"), checks=cks))
+                continue
             for mm in re.finditer(r"(?<=[<>=] )(\d+)\b", s):
                 v = int(mm.group(1))
                 muts.append(dict(file=path, line=ln + 1, fn=fn, op="const+1", new=line[:mm.start()] + str(v + 1) + line[mm.end():], checks=cks))
@@ -164,8 +184,11 @@ def main():
     ap.add_argument("--only", default="")
     ap.add_argument("--out", default=os.path.join(V, "mutation", "RESULTS.json"))
     ap.add_argument("--list", action="store_true")
+    ap.add_argument("--ops2", action="store_true", help="second operator set: dropped defers / calls, channel buffering, lock kinds, cancellation cases")
     ap.add_argument("--resume", action="store_true", help="keep the results already in --out and skip those mutants")
     a = ap.parse_args()
+    global OPS2
+    OPS2 = a.ops2
     muts = enumerate_mutants()
     if a.only: muts = [m for m in muts if re.search(a.only, m["file"] + ":" + m["fn"] + ":" + m["op"])]
     if a.list:
